@@ -25,7 +25,7 @@ ASSUMPTIONS = [
     "'source edge just after the destination edge' is represented by the opposite edge order plus an all-old resolution",
     "BusSynchronizer: clock ratio <= 3 either way and timeout >= 8*ratio+16 (the property's premise: time-out longer than one "
     "request/acknowledge round trip); input words are changed no faster than the environment chooses, any instant",
-    "reset pulses of the common-reset variant last >= 4 cycles of the slower clock and both sides are idle-flushed by them",
+    "reset pulses of the common-reset variant last until both domains have taken the reset and then seen >= 4 further edges each (the synchroniser flops are reset-less and need flushing); producer and consumer are idle around a pulse",
 ]
 COMPONENTS = {"real": ["litex.soc.interconnect.stream.AsyncFIFO/ClockDomainCrossing", "migen.genlib.fifo.AsyncFIFO(Buffered)",
                        "litex.gen.genlib.cdc.BusSynchronizer", "migen.genlib.cdc.PulseSynchronizer/MultiRegImpl",
@@ -154,39 +154,70 @@ class Observer(Agent):
 
 
 class ResetPulser(Agent):
-    """Drives the rst of both domains' ClockDomains from literal pulses (in ticks). Producer and
-    consumer are held idle during a pulse and for `settle` ticks afterwards."""
+    """Drives the rst of the two domains' ClockDomains. A pulse [start tick, min length in ticks, which] stays
+    asserted until BOTH domains have seen at least 4 rising edges under reset (the synchroniser flops are
+    reset-less and need flushing: stated assumption) and at least the literal length; producer and consumer are
+    held idle from 30 ticks / 3 edges of each domain before the pulse until 8 edges of each domain after it.
+    Works on whichever domain's coordinator calls it (registered in both)."""
 
-    def __init__(self, rsts, pulses, prod, cons, settle=40):
-        self.rsts, self.pulses = rsts, pulses
+    def __init__(self, rsts, pulses, prod, cons):
+        self.rsts, self.pulses = rsts, sorted(pulses)
         self.prod, self.cons = prod, cons
         self.reads = ()
-        self.state = [0, 0]
-        self.settle = settle
-        self.windows = []
+        self.k = 0
+        self.phase = "idle"      # idle -> pre -> pulse -> post
+        self.mark = None
+        self.windows = []        # [pulse start tick, window end tick]
+        self.in_window = False
+        self.last_tick = -1
 
     def done(self):
-        return True
+        return self.phase == "idle"
+
+    def _edges_since(self, mark):
+        r = self.bench.clocks.rises
+        return min(r[d] - mark[d] for d in ("a", "b"))
 
     def step(self, v, t, w):
-        tick = self.bench.clocks.ticks
-        want = [0, 0]
-        hold = False
-        for start, ln, which in self.pulses:
-            if start <= tick < start + ln:
-                want[which] = 1
-            if start - 30 <= tick < start + ln + self.settle:
-                hold = True
-        for i in range(2):
-            if want[i] != self.state[i]:
-                w(self.rsts[i], want[i])
-                self.state[i] = want[i]
-                if want[i]:
-                    self.bench.fault("rst_pulse")
-                    self.bench.event("rst", tick, i)
-        self.prod.hold = hold
-        self.cons.hold = hold
-        self.in_window = hold
+        clk = self.bench.clocks
+        tick = clk.ticks
+        if tick == self.last_tick:
+            return
+        self.last_tick = tick
+        if self.phase == "idle":
+            if self.k < len(self.pulses) and tick >= self.pulses[self.k][0] - 30:
+                self.phase = "pre"
+                self.mark = dict(clk.rises)
+                self.prod.hold = self.cons.hold = True
+                self.in_window = True
+        elif self.phase == "pre":
+            start, ln, which = self.pulses[self.k]
+            if tick >= start and self._edges_since(self.mark) >= 3:
+                w(self.rsts[which], 1)
+                self.bench.fault("rst_pulse")
+                self.bench.event("rst", tick, which)
+                self.t_start = tick
+                self.mark = dict(clk.rises)
+                self.mark2 = None
+                self.phase = "pulse"
+        elif self.phase == "pulse":
+            start, ln, which = self.pulses[self.k]
+            # long enough to flush the reset-less synchroniser flops under ANY edge order: first both domains
+            # take the reset (>= 1 edge each), then both see >= 4 further edges
+            if self.mark2 is None:
+                if self._edges_since(self.mark) >= 1:
+                    self.mark2 = dict(clk.rises)
+            elif tick >= self.t_start + ln and self._edges_since(self.mark2) >= 4:
+                w(self.rsts[which], 0)
+                self.mark = dict(clk.rises)
+                self.phase = "post"
+        elif self.phase == "post":
+            if self._edges_since(self.mark) >= 8:
+                self.windows.append([self.t_start, tick])
+                self.k += 1
+                self.phase = "idle"
+                self.prod.hold = self.cons.hold = False
+                self.in_window = False
 
 
 def run(scn):
@@ -248,8 +279,9 @@ def run_stream(scn):
         inj.attach(bench, alias_of)
     pulses = scn.get("faults") or []
     if pulses:
-        rp[0] = bench.add(ResetPulser([top.cd_a.rst, top.cd_b.rst], pulses, prod, cons), "a")
-        rp[0].in_window = False
+        rp[0] = ResetPulser([top.cd_a.rst, top.cd_b.rst], pulses, prod, cons)
+        bench.add(rp[0], "a")
+        bench.agents["b"].append(rp[0])      # stepped from both domains (first call per tick acts)
     bench.run()
     viol = []
 
@@ -282,7 +314,9 @@ def run_stream(scn):
         # under reset pulses: both sides are reset together; tokens in flight at a pulse may be lost. Per epoch
         # (clean interval between two pulse windows) the delivered tokens are a prefix of what was accepted in it
         # (optionally preceded by tokens accepted while the previous window was closing); the last epoch is complete.
-        wins = sorted([s_, s_ + l_ + 40] for s_, l_, _ in pulses)
+        wins = sorted(rp[0].windows)
+        if rp[0].phase in ("pulse", "post"):
+            wins.append([rp[0].t_start, 10 ** 9])
         n_ep = len(wins) + 1
 
         def epoch_of(tick):
